@@ -226,3 +226,124 @@ def run_assembly(mat, ctx=None, classes=None, records=None, kwargs=True):
     if ctx is not None:
         ctx.count("assemble_calls")
     return res
+
+
+# ----------------------------------------------------------------------------- registry assemblies (derived, not hard-coded)
+
+def _registry_graph():
+    """per registry: model view of each item: (key, cls, record, role, cutter name, v_start/start, v_end/end)"""
+    from .. import regs, asmmon
+    from moclo.core.vectors import AbstractVector
+
+    out = {}
+    for rname, key, cls, rec in regs.items():
+        enz = cls.cutter
+        if not asmmon.supported_cutter(enz):
+            continue
+        text = str(rec.seq).upper()
+        if set(text) - set("ACGT"):
+            continue
+        fr = refmodel.module_fragment(text, refmodel.geometry(enz))
+        if fr is None:
+            continue
+        try:
+            if not cls(rec).is_valid():
+                continue
+        except Exception:
+            continue
+        role = "V" if issubclass(cls, AbstractVector) else "M"
+        out.setdefault(rname, []).append({"key": key, "cls": cls, "rec": rec, "role": role, "enz": str(enz), "start": fr[2], "end": fr[3]})
+    return out
+
+
+def registry_assembly_cases(seed, per_vector=2, max_len=9):
+    """sample chains from every registry vector's downstream overhang back to its upstream overhang through
+    registry modules of the same cutter (random walks over the overhang graph read off by the string model)"""
+    graph = _registry_graph()
+    cases = []
+    for rname in sorted(graph):
+        its = graph[rname]
+        vectors = [x for x in its if x["role"] == "V"]
+        if rname == "plant":
+            vectors = [{"key": None, "generated": {"enzyme": "BsaI", "o_start": "CGCT", "o_end": "GGAG"}, "enz": "BsaI", "start": "CGCT", "end": "GGAG"}]
+        for v in vectors:
+            mods = [x for x in its if x["role"] == "M" and x["enz"] == v["enz"]]
+            by_start = {}
+            for m in mods:
+                by_start.setdefault(m["start"], []).append(m)
+            found = 0
+            for attempt in range(per_vector * 12):
+                if found >= per_vector:
+                    break
+                rng = gen.rng_for(seed, "regasm", rname, v["key"], attempt)
+                cur, chain, starts = v["end"], [], set()
+                while cur != v["start"] and len(chain) <= max_len:
+                    cands = [m for m in by_start.get(cur, []) if m["start"] not in starts and rc(m["start"]) not in starts
+                             and m["start"] != rc(m["start"])]
+                    if not cands:
+                        chain = None
+                        break
+                    m = rng.choice(cands)
+                    chain.append(m)
+                    starts.add(m["start"])
+                    cur = m["end"]
+                if not chain or cur != v["start"]:
+                    continue
+                found += 1
+                order = list(range(len(chain)))
+                rng.shuffle(order)
+                cases.append({"kind": "registry-asm", "reg": rname, "vector": v["key"], "generated": v.get("generated"),
+                              "modules": [chain[i]["key"] for i in order], "seed": seed, "n": attempt,
+                              "rots": [rng.random() for _ in range(len(chain) + 1)]})
+    return cases
+
+
+def registry_records(mat, with_features=False, rotate=True):
+    """(vector class, vector record, [(module class, module record)]) for a registry-asm case.
+    Records are rotated by the harness's own string rotation (features dropped) unless with_features,
+    in which case the library's >> is used on a deep copy (the path a user takes)."""
+    import copy
+    from Bio.Seq import Seq
+    from moclo.record import CircularRecord
+    from .. import regs
+
+    index = {(r, k): (cls, rec) for r, k, cls, rec in regs.items()}
+
+    def prep(cls, rec, frac):
+        n = len(rec)
+        r = int(frac * n) % n if rotate else 0
+        if with_features:
+            c = CircularRecord(rec)
+            return cls, (c << r if r else c)
+        return cls, CircularRecord(Seq(rot_left(str(rec.seq), r)), id=rec.id, name=rec.name)
+
+    if mat.get("generated"):
+        g = mat["generated"]
+        rng = gen.rng_for(mat["seed"], "genvec", mat["reg"])
+        geom = refmodel.geometry(gen.enzyme(g["enzyme"]))
+        b = gen.build_vector(rng, geom, g["o_start"], g["o_end"], plen=30, blen=60)
+        V, _ = gen.generic_classes(g["enzyme"])
+        vcls, vrec = prep(V, CircularRecord(Seq(b["seq"]), id="genvec", name="genvec"), mat["rots"][0])
+    else:
+        vcls, vrec = prep(*index[(mat["reg"], mat["vector"])], frac=mat["rots"][0])
+    mods = [prep(*index[(mat["reg"], k)], frac=mat["rots"][1 + i]) for i, k in enumerate(mat["modules"])]
+    return vcls, vrec, mods
+
+
+def run_registry_assembly(mat, ctx=None, with_features=False):
+    vcls, vrec, mods = registry_records(mat, with_features)
+    vec = vcls(vrec)
+    ents = [c(r) for c, r in mods]
+    res = {"vector": vec, "modules": ents}
+    with warnings.catch_warnings(record=True) as w:
+        warnings.simplefilter("always")
+        try:
+            res["product"] = vec.assemble(*ents, id="regprod", name="regprod")
+            res["outcome"] = "product"
+        except Exception as e:
+            res["error"] = e
+            res["outcome"] = "error"
+    res["warnings"] = list(w)
+    if ctx is not None:
+        ctx.count("registry_assemblies")
+    return res
